@@ -22,4 +22,30 @@ def extra_seeds():
         for lst, b in ((req, ref.ldap_starttls_request(1, forms)), (resp, ref.ldap_starttls_response(0, 1, b'', b'', forms))):
             if b not in lst:
                 lst.append(b)
+    # OpenSSH certificate options the corpus does not have (lists of mixed kinds), reference-encoded: alone, in their
+    # vector, and inside an Ed25519 v01 certificate - objects a changed constructor may refuse to build are still
+    # reachable from the wire
+    from mc.ref import ssh_ref as sr
+    # (the value directly in the data field: the layout this library reads and writes - a listed C07 finding; the
+    # PROTOCOL.certkeys layout with the inner string wrapper is kept as a second spelling in the vector seeds)
+    src = sr.string(b'source-address') + sr.string(b'10.0.0.0/8,::1/128')
+    src3 = sr.string(b'source-address') + sr.string(b'2001:db8::/32,192.168.1.1/32,10.0.0.0/8')
+    force = sr.string(b'force-command') + sr.string(b'ls -l')
+    wrapped = sr.string(b'source-address') + sr.string(sr.string(b'10.0.0.0/8,::1/128'))
+    for qn, b in (('cryptoparser.ssh.key.SshCertExtensionSourceAddress', src),
+                  ('cryptoparser.ssh.key.SshCertExtensionSourceAddress', src3),
+                  ('cryptoparser.ssh.key.SshCertCriticalOptionVector', sr.string(force + src)),
+                  ('cryptoparser.ssh.key.SshCertCriticalOptionVector', sr.string(src3)),
+                  ('cryptoparser.ssh.key.SshCertCriticalOptionVector', sr.string(force + wrapped))):
+        lst = _CACHE.setdefault(qn, [])
+        if b not in lst:
+            lst.append(b)
+    cert = sr.cert_v01(b'ssh-ed25519-cert-v01@openssh.com', bytes(range(32)), sr.string(bytes(range(32, 64))), 7, 2, b'key-id',
+                       [b'host.example'], 0, 2 ** 31, [(b'force-command', b'ls'), (b'source-address', b'10.0.0.0/8,::1/128')],
+                       [(b'permit-pty', b''), (b'ext@verif.example', b'')], b'',
+                       sr.key_ed25519(bytes(range(64, 96))), sr.string(b'ssh-ed25519') + sr.string(bytes(64)))
+    for qn in ('cryptoparser.ssh.key.SshHostCertificateV01EDDSA', 'cryptoparser.ssh.key.SshHostPublicKeyVariant'):
+        lst = _CACHE.setdefault(qn, [])
+        if cert not in lst:
+            lst.append(cert)
     return _CACHE
